@@ -2,4 +2,5 @@ SPECIFICATION Spec
 INVARIANT InstrumentationSucceeds
 INVARIANT BranchOutcomesExact
 INVARIANT PredicatesRegistered
+INVARIANT SuiteAnalysisKeepsOutcomes
 CHECK_DEADLOCK FALSE
